@@ -71,6 +71,23 @@ impl Check for C12 {
         for _ in 0..1 + d.below(2) {
             case.inputs.push(gen::gen_input(d, &model, if thorough { 40 } else { 20 }));
         }
+        if d.chance(40) {
+            // characters next to their aliases (same low 8 / 16 / 20 bits) in the inputs of the
+            // iterators that share one compilation: anything memoised per character behind the
+            // shared scanner is asked about both
+            for inp in case.inputs.iter_mut() {
+                let chars: Vec<char> = inp.chars().collect();
+                for _ in 0..2 + d.below(3) {
+                    let c = if chars.is_empty() || d.bool() { gen::gen_char(d) } else { chars[d.below(chars.len())] };
+                    let delta = *d.pick(&[0x100u32, 0x10000, 0x10000, 0x100000, 0x100000, 0x400]);
+                    inp.push(c);
+                    if let Some(a) = char::from_u32(c as u32 + delta) {
+                        inp.push(a);
+                        inp.push(c);
+                    }
+                }
+            }
+        }
         if d.chance(48) {
             // the line-buffer idiom: inputs of equal byte length that differ in a few characters
             // are scanned one after the other from ONE reused buffer (same address), the earlier
